@@ -1,6 +1,6 @@
 PROP = dict(
     id="C02",
-    lean_modules=[],
+    lean_modules=["TongoProofs.C02"],
     gen=[],
     spec_ops=("cell.hash", "cell.levels"),
     rule="random DAGs; non-trivial = >= 2 cells",
